@@ -1,10 +1,13 @@
 import MetadorModel.Proofs.RecordGood
+import MetadorModel.Proofs.CrashTornBase
 /-!
 # C03 — Closing and reopening a record reproduces exactly the same view; open-mode contract
 
 Theorems about `MetadorModel.Record` (`IH5Record.__init__` mode dispatch, `_open`, `_create`,
 `create_patch`, `discard_patch`, `close`) and `MetadorModel.FindFiles` (`find_files`).
 Helper lemmas: `Proofs/RecordSpec`, `RecordModes`, `RecordChain`, `RecordReopen`, `FindFiles`.
+The user-block codec (`IH5UserBlock._read_head_raw`, `load`, `save`; model `Model/UBlock`, framing
+lemmas `Proofs/CrashTornBase`) is covered at the level of the embedded text: `ub_text_roundtrip`.
 
 Vocabulary
 * `Resolves d t paths` — the first constructor argument `t` (a record name resolved by
@@ -266,6 +269,69 @@ theorem findFiles_disjoint (dir : List Name) (n m : Name) (hn : ValidName n) (hm
     have := h1 '.' ('p' :: (decimal k ++ ext)) (by decide)
     simpa [patchFile, infix_] using this
 
+/-! ## user-block codec: whatever `save` accepted loads again
+
+`IH5UserBlock.save` writes `magic \n 1024 \n <json> NUL` in place at offset 0 and asserts that
+this is shorter than 1024 bytes, i.e. the JSON text has at most 1010 characters. `load` probes
+the first 512 bytes and re-reads with the stated size (1024 > 512). The statements are about
+the *text* between the second newline and the first NUL (any ASCII text without newline / NUL:
+the canonical blocks of `IH5Record` ≈ 300 characters, of `IH5MFRecord` ≈ 500, and blocks of
+subclasses that put more into the documented `ub_exts` section); `json.loads` + pydantic on
+that text are the concern of `UBlock.parseUBT` (C04/C11). -/
+
+theorem clean_nul_cons {z : List Char} (hz : UBlock.Clean z) : UBlock.Clean ('\x00' :: z) := by
+  intro c hc
+  rcases List.mem_cons.mp hc with h | h
+  · subst h; exact ⟨by decide, by decide⟩
+  · exact hz c h
+
+/-- **ub_text_roundtrip**: a block `magic \n 1024 \n t NUL z` loads the stated size and exactly
+the text `t`, for every text of up to 1010 characters — in particular for those longer than the
+499 characters the first probe sees. `z` is whatever follows the NUL; only the part inside the
+reserved 1024 bytes matters and must be ASCII without newline (zeros, or the tail of an older,
+longer text and its NUL). -/
+theorem ub_text_roundtrip (t z : List Char) (ht : UBlock.Clean t) (hnul : '\x00' ∉ t)
+    (hlen : t.length ≤ 1010) (hz : UBlock.Clean (z.take (1010 - t.length))) :
+    UBlock.loadText (UBlock.HDR ++ (t ++ '\x00' :: z)) = .ok (1024, t) := by
+  have htake : (t ++ '\x00' :: z).take 1011 = t ++ '\x00' :: z.take (1010 - t.length) := by
+    rw [List.take_append, List.take_of_length_le (by omega)]
+    obtain ⟨m, hm⟩ : ∃ m, 1011 - t.length = m + 1 := ⟨1010 - t.length, by omega⟩
+    rw [hm, List.take_succ_cons]
+    congr 3; omega
+  rw [UBlock.loadText_hdr _ (by rw [htake]; exact ht.append (clean_nul_cons hz)),
+    UBlock.cutNul_take hnul z (by omega)]
+
+/-- the same for the in-place write of `save` over the old first bytes of the file
+(`UBlock.torn` with the complete length = `f.seek(0); f.write(data); f.write(NUL)`) -/
+theorem ub_text_roundtrip_inplace (old t : List Char) (ht : UBlock.Clean t) (hnul : '\x00' ∉ t)
+    (hlen : t.length ≤ 1010)
+    (hold : UBlock.Clean ((old.drop (t.length + 14)).take (1010 - t.length))) :
+    UBlock.loadText (UBlock.torn (UBlock.HDR ++ (t ++ ['\x00'])).length old (UBlock.HDR ++ (t ++ ['\x00'])))
+      = .ok (1024, t) := by
+  have hl : (UBlock.HDR ++ (t ++ ['\x00'])).length = t.length + 14 := by
+    simp [UBlock.HDR_length]; omega
+  unfold UBlock.torn
+  rw [List.take_of_length_le (le_refl _), hl, List.append_assoc, List.append_assoc]
+  exact ub_text_roundtrip t _ ht hnul hlen hold
+
+theorem untilNul_none {a : List Char} (ha : '\x00' ∉ a) : UBlock.untilNul a = none := by
+  induction a with
+  | nil => rfl
+  | cons c a ih =>
+    have hc : c ≠ '\x00' := fun h => ha (h ▸ List.mem_cons_self)
+    simp [UBlock.untilNul, hc, ih (fun h => ha (List.mem_cons_of_mem _ h))]
+
+/-- why the re-read is needed: the 512-byte probe alone yields a truncated text for every
+text of 499 characters or more (no NUL in sight, and `find` = -1 drops one more character) -/
+theorem probe_alone_truncates (t z : List Char) (ht : UBlock.Clean t) (hnul : '\x00' ∉ t)
+    (hlen : 499 ≤ t.length) :
+    UBlock.readHeadRaw (UBlock.HDR ++ (t ++ '\x00' :: z)) 512 = .ok (some (1024, (t.take 499).dropLast)) := by
+  have htake : (t ++ '\x00' :: z).take (512 - 13) = t.take 499 := by
+    rw [List.take_append_of_le_length (by omega)]
+  rw [UBlock.readHeadRaw_hdr _ 512 (by omega) (by rw [htake]; exact ht.take _), htake]
+  have : UBlock.untilNul (t.take 499) = none := untilNul_none (fun h => hnul (List.mem_of_mem_take h))
+  simp [UBlock.cutNul, this]
+
 /-! ## Non-vacuity: concrete states meet the hypotheses -/
 
 /-- `foo`, `foo2` -/
@@ -307,5 +373,14 @@ example : (match openFiles (close (run {} hist) true).st.disk
     | .ok (files, b) => !b && files.length == 3
     | .error _ => false) = true := by decide
 example : (createPatch (run {} (hist ++ [.commitPatch]))).out = .ok := by decide
+
+/-- a text of 600 characters (longer than the first probe) in a zero-filled block -/
+example : UBlock.loadText (UBlock.HDR ++ (List.replicate 600 'a' ++ '\x00' :: List.replicate 410 '\x00'))
+    = .ok (1024, List.replicate 600 'a') := by
+  apply ub_text_roundtrip
+  · intro c hc; rw [List.eq_of_mem_replicate hc]; exact ⟨by decide, by decide⟩
+  · intro h; exact absurd (List.eq_of_mem_replicate h) (by decide)
+  · rw [List.length_replicate]; omega
+  · intro c hc; rw [List.eq_of_mem_replicate (List.mem_of_mem_take hc)]; exact ⟨by decide, by decide⟩
 
 end MetadorModel.C03
